@@ -81,8 +81,8 @@ def repo_hash():
         for dp, dn, fn in sorted(os.walk(root)):
             for f in sorted(fn):
                 p = os.path.join(dp, f)
-                if '__pycache__' in p or f.endswith('.pyc') or '/harness/bin/' in p:
-                    continue
+                if '__pycache__' in p or f.endswith('.pyc') or '/harness/bin/' in p or f in ('mkmanifest.py', 'seedtest.py'):
+                    continue        # (the last two do not take part in any check)
                 h.update(p.encode())
                 with open(p, 'rb') as fh:
                     h.update(fh.read())
